@@ -163,10 +163,19 @@ func Vote(ctx, id, from) (n)
     invariant store == old(store) && voters == cnd.Voters
     invariant forall t Int {voters[t]} :: 0 <= t && t < j ==> voters[t] != from
 
+// removes the first ballot for id (a fired decision must not fire again); nothing else changes
 func RemoveVotes(ctx, id)
+  logged
   ensures [C17] store.has("ballots")
   ensures [C17] forall k Bytes {store.opt(k)} :: k != "ballots" ==> store.opt(k) == old(store).opt(k)
   ensures notifs == old(notifs)
+  ensures [C17] forall i Int {ballots(old(store))[i]} :: 0 <= i && i < len(ballots(old(store))) && ballots(old(store))[i].ID == id
+        && (forall t Int {ballots(old(store))[t]} :: 0 <= t && t < i ==> ballots(old(store))[t].ID != id)
+        ==> len(ballots(store)) == len(ballots(old(store))) - 1
+         && (forall p Int {ballots(store)[p]} :: 0 <= p && p < i ==> ballots(store)[p] == ballots(old(store))[p])
+         && (forall p Int {ballots(store)[p]} :: i <= p && p < len(ballots(store)) ==> ballots(store)[p] == ballots(old(store))[p + 1])
   loop 0
-    invariant store == old(store)
+    invariant store == old(store) && candidates == ballots(old(store))
+    invariant forall t Int {candidates[t]} :: 0 <= t && t < $i ==> candidates[t].ID != id
+    invariant index == 0
 @*/
